@@ -52,7 +52,7 @@ class Ledger:
         self.states = e2.prefix_states(pp, vidx, program)
         self.n = len(program)
         self.names = sorted(e2.expected_names(program))
-        subs = e1.substances(pp, vidx)
+        subs = e1.substances(pp, vidx, twins=False)
         self.subs = subs
 
     def amt(self, i, name, sub):
@@ -195,6 +195,19 @@ def check_used(pp, ledger, layout_label, layout, b, full_units, memo):
                 got, outcome = _ask_used(recipe, sub, tf, unit, dest_arg)
                 case = {'layout': layout_label, 'query': ['used', sname, dlabel, tf, unit]}
                 feat = f"layout={lclass},dest={dkind}"
+                if full_units and tf == 'all' and dkind == 'explicit':
+                    # the destinations are declared as an Iterable: every form of the same collection gets the same answer
+                    for form, arg in (('tuple', tuple(dest_arg)), ('generator', (x for x in dest_arg)),
+                                      ('iterator', iter(list(dest_arg))), ('dict-values', {id(x): x for x in dest_arg}.values())):
+                        q += 1
+                        got2, outcome2 = _ask_used(recipe, sub, tf, unit, arg)
+                        if (outcome2, got2) != (outcome, got):
+                            vs.append((f"get_substance_used | destination-form | form={form}",
+                                       f"program [{program_text}]: get_substance_used({sname}, 'all', {unit!r}, destinations=<{form} "
+                                       f"of {dlabel}>) = {got2 if outcome2 == 'value' else outcome2!r}, with the list it is "
+                                       f"{got if outcome == 'value' else outcome!r}",
+                                       dict(case, form=form), got if outcome == 'value' else outcome,
+                                       got2 if outcome2 == 'value' else outcome2))
                 where = (f"program [{program_text}] with stages {layout}: get_substance_used({sname}, {tf!r}, {unit!r}, "
                          f"destinations={dlabel})")
                 if outcome not in ('value', 'ValueError'):
@@ -366,9 +379,13 @@ def analyze(item):
 
 def run(col, which, depth_quick=3, depth_thorough=4):
     pp = env.load()
-    vals = [col.seed % 3] if col.tier == 'quick' else [0, 1, 2]
-    depth = depth_quick if col.tier == 'quick' else depth_thorough
-    for v in vals:
+    # quick: one valuation (by seed) to depth 3; thorough: that valuation to depth 4 and the other two to depth 3
+    # (depth 4 under all three valuations is ~0.8 M programs x 12 layouts: 80 min for C09, ~2 h for C15 on 16 cores)
+    if col.tier == 'quick':
+        plan = [(col.seed % 3, depth_quick)]
+    else:
+        plan = [(col.seed % 3, depth_thorough)] + [(v, depth_quick) for v in range(3) if v != col.seed % 3]
+    for v, depth in plan:
         voc, programs, failing = e2.successful_programs(pp, v, depth)
         _G.update(pp=pp, vidx=v, voc=voc, thorough=(col.tier == 'thorough'))
         res = par.pmap(analyze, [(which, p) for p in programs], chunk=40)      # BFS order: neighbours share prefixes
